@@ -369,7 +369,7 @@ func c06Run(r *vlib.Run, cf *c06Fleet, rng *rand.Rand, pi, run int, w2 bool, pro
 // results (many groups): interim transmissions, their hand-over and the final
 // one all happen while lines still arrive; every line must be accounted for.
 func c06LongRun(r *vlib.Run) {
-	nRuns := r.N(2, 10)
+	nRuns := r.N(4, 12)
 	fl, err := startFleet(r, "c06long", 2, map[string]interface{}{"MaxConcurrentCats": 2, "MaxConnections": 50}, nil, "error")
 	if err != nil {
 		r.Inconclusive("fleet-start")
